@@ -21,7 +21,9 @@ MANIFEST = dict(
               'top-level dispatch of FGD.parse_file; codec tables, bit packings, whole binary records, blocks, file header and block '
               'positions; the block builder of serialise(): every entity in exactly one block; lazy database = eager database for all '
               'query orders including what stored base names are replaced by; a LIST of databases: first-hit look-up = first-wins merge '
-              'for all histories; one composed statement c16_property over the generated objects) + '
+              'for all histories; the helper argument list as a configuration read off EntityDef.parse and proved equal to the model; '
+              'what EntityDef.__deepcopy__ shares with the cached definition, as a copy plan read off the source with a theorem over all '
+              'shapes, copy expressions and heaps; one composed statement c16_property over the generated objects) + '
               'fail-closed ast translator that normalises before matching (constants, escape table, decisive writer branches read off '
               'all paths, I/O skeletons of the (un)serialisers, shape of get_ent/_parse_block/get_fgd, shape of the engine_def loop and '
               'of the engine_dbase merge, symbolic execution of the type-text part of the line parsers, VALUE_TYPE_LOOKUP, the dispatch '
@@ -55,7 +57,14 @@ MANIFEST = dict(
          'loaded database; base look-ups terminate; the ent_map-look-up variant is refuted. Several databases (add_engine_database): '
          'for every list of files and every history of EntityDef.engine_def() look-ups the answers equal FGD.engine_dbase() when the '
          'merge keeps the first definition of a class, both are the content of the first file that defines it, and the overwriting '
-         'merge (dict.update) is refuted on every class whose first and last definitions differ. c16_property states text, type text, '
+         'merge (dict.update) is refuted on every class whose first and last definitions differ. Helper arguments: every argument '
+         'list whose arguments are stripped and comma-free - BLANK arguments at any position included - is read back from what '
+         '", ".join wrote, except the sole blank argument (helper() is no argument, stated exactly); every configuration (separator, '
+         'strip, filter, sole-blank special case) of today\'s shape computes the model on all inputs; a filter in the comprehension is '
+         'refuted. State between calls: for every shape of an attribute, every copy expression that the decision procedure `isolates` '
+         'accepts and every value of that shape, no object of the copy is an object of the original, so no in-place change through '
+         'what engine_def()/engine_dbase() returned reaches the cached database; sharing the IODef objects and sharing the resources '
+         'list are refuted. c16_property states text, type text, helper arguments, copy isolation, '
          'kind keyword, block grouping and lazy loading at the generated objects under the conjunction of the named booleans, which is '
          'itself an instance obligation of every run. The objects the theorems quantify over are '
          'regenerated from the source on every run and kernel-checked as named instance obligations; all hand models are compared with the '
@@ -70,8 +79,10 @@ MANIFEST = dict(
          'are abstract in the theorems; their premises are checked on the real tables / generated helpers (data obligations). str.casefold is '
          'modelled as ASCII lower-casing (the three laws the type-text proof needs are proved for it). Block decoding '
          'in the lazy model is a parameter (a function of the block bytes), lzma is outside the model, compute_ent_strings (which strings a '
-         'block needs) and the final stable sort of the blocks by length are not modelled, deepcopy in engine_def/engine_dbase '
-         'and FGD.apply_bases after the merge are outside the model. The translator assumes that attribute loads are plain field reads and '
+         'block needs) and the final stable sort of the blocks by length are not modelled; copy.deepcopy itself (on bases and helpers), '
+         'the generic deepcopy of the FGD object in engine_dbase and FGD.apply_bases after the merge are outside the model; the shapes '
+         'of the attributes come from the annotations (a value may be immutable where the annotation allows a container; Sequence counts '
+         'as a mutable container). The translator assumes that attribute loads are plain field reads and '
          'that the str methods it inlines have no effects. Accepted normalisations of the text form: I/O types decay (VALUE_TO_IO_DECAY), empty BOOL '
          'default = "0", yes/no = 1/0, kv_order is compared as effective order, newlines in choice/flag names become spaces, '
          'custom_syntax=False drops tags/resources/extension helpers/aliasof and cannot represent ", \\ or CR in texts; a custom type name '
@@ -80,7 +91,8 @@ MANIFEST = dict(
          'worker processes with wall limits: a search stage that does not return or raises unexpectedly is reported as a violation whose '
          'replay re-runs the stage; a tie stage that times out is an internal error. Trusted: Coq kernel + '
          'vm_compute, translate/c16_fgd.py, hand models Fmt/LongString.v, Fmt/FgdBin.v, Fmt/FgdBinEnt.v, Fmt/FgdLine.v, Fmt/FgdBody.v, '
-         'Fmt/FgdHead.v, SM/LazyDb.v, SM/LazyDbMulti.v (tied by correspondence), the real Tokenizer as lexer of the line correspondences, CPython.',
+         'Fmt/FgdHead.v, SM/LazyDb.v, SM/LazyDbMulti.v (tied by correspondence), SM/FgdCopyShare.v (the heap model of copies: objects with an '
+         'address over immutable leaves; tied by the isolation searches), the real Tokenizer as lexer of the line correspondences, CPython.',
 )
 
 IMPORTS = ['Coq.NArith.NArith', 'Coq.Lists.List', 'Coq.Strings.String', 'Coq.Bool.Bool', 'Coq.Arith.Arith', 'SV.Fmt.LongString', 'SV.Fmt.FgdBin', 'SV.Fmt.FgdBinEnt', 'SV.Fmt.FgdLine', 'SV.Fmt.FgdBody', 'SV.Fmt.FgdHead', 'SV.Fmt.FgdEntity', 'SV.SM.LazyDb', 'SV.SM.LazyDbMulti',
@@ -3312,6 +3324,7 @@ INSTANCE_OBLIGATIONS = {
     'state_copy_of_helpers_shares_no_object': 'copy_field_isolates "helpers"%string',
     'state_copy_of_resources_shares_no_object': 'copy_field_isolates "resources"%string',
     'state_copy_plan_isolates_every_attribute': 'entity_copy_isolates',
+    'state_answers_of_engine_def_and_engine_dbase_are_deep_copies': 'answers_are_deep_copies',
     'state_copy_shared_io_objects_and_shared_list_are_refuted': 'shared_io_objects_break',
     'text_kv_type_program_is_the_model': 'kv_type_prog_ok',
     'text_io_type_program_is_the_model': 'io_type_prog_ok',
@@ -3808,7 +3821,12 @@ def run(ck: Ck) -> None:
                'upper-case letter; custom value types on 12-15 % of the generated keyvalues / inputs / outputs; kind keywords of every '
                'EntityTypes member in random case; block builder: 1-14 entities with sizes on the scale of MAX_BLOCK_SIZE, random '
                'overlapping pairs over a subset of them, non-trivial = more than one block and at least one pair; answer isolation: histories '
-               'of 14 (class, change) pairs over the bundled database through engine_def or one engine_dbase(), distinct by content')
+               'of 20 (class, change) pairs over the bundled database through engine_def or one engine_dbase() (10 kinds of change incl. in-place '
+               'changes of the resources list, value lists and kv_order), and deepcopy + every applicable change on every entity of generated '
+               'FGDs, distinct by content; helper argument lists: EVERY list of 0-4 arguments over {blank, x, b c} for unknown helpers and lists '
+               'with blanks that the known helpers accept (frustum, line, cylinder, wirebox, obb, sphere, lightcone, lightconenew, appliesto, '
+               'orderby), as hand-written text, non-trivial = has a blank argument; the helper pools of the generated FGDs and of the header '
+               'correspondence carry blank arguments at the first, middle, last and several positions')
     ck.trusted.append('hand-written models Fmt/LongString.v, Fmt/FgdBin.v, Fmt/FgdBinEnt.v, Fmt/FgdLine.v, Fmt/FgdBody.v, Fmt/FgdHead.v, SM/LazyDb.v, SM/LazyDbMulti.v (tied by differential '
                       'correspondence on every run; decisive branches and layouts read from the source by the translator)')
     ck.trusted.append('hand-written models Fmt/FgdKindKw.v (top-level dispatch, str.title/replace on ASCII) and SM/FgdBlocks.v (block builder), tied by '
@@ -3826,11 +3844,16 @@ def run(ck: Ck) -> None:
         'binary record theorem: spawnflag masks are powers of two below 2^128, SPAWNFLAGS keyvalues carry no default and other keyvalues no '
         'flag list (what the parser produces); the format does not carry descriptions, helpers, keyvalue tags, kv_order, reportable',
         'custom_syntax=False cannot represent ", \\ and CR in texts, nor tags/resources/extension helpers/aliasof (documented loss)',
-        'entity header theorem: base names and helper arguments are non-empty, stripped, without commas; bases are distinct; no helper is called '
+        'entity header theorem: base names are non-empty, base names and helper arguments are stripped and without commas (helper arguments may '
+        'be blank; the sole blank argument is excluded: helper() is no argument); bases are distinct; no helper is called '
         'base/aliasof/autovis; HELPER_IMPL[type].parse(export()) gives the helper back (checked on the generated helpers as a data obligation)',
         'translator normalisation: attribute loads are plain field reads, callees do not re-assign fields of their arguments, the str methods '
         'casefold/lower/upper/strip/... have no effects (single-assignment locals bound to such expressions are inlined before matching)',
-        'several databases: every database is an independent LazyDb; deepcopy of the answers and FGD.apply_bases() after the merge are outside the model',
+        'several databases: every database is an independent LazyDb; FGD.apply_bases() after the merge is outside the model',
+        'copy isolation: the heap model of SM/FgdCopyShare.v (mutable objects with an address over immutable leaves; an in-place change replaces '
+        'the content of one object); shapes from the annotations of EntityDef / KVDef / IODef (keys of dicts, tuples, frozensets, enums and frozen '
+        'attrs classes are immutable; Helper and EntityDef values need deepcopy); copy.deepcopy and list()/dict()/.copy() of the builtins behave '
+        'as documented',
         'custom value type names are stripped, do not start with *, and are not a spelling of a known type (nor `ehandle` on I/O lines): '
         'what export -> parse can keep; `(* Foo)` and `(**Foo)` are outside (the stored name would start with a blank / a star)',
         'block builder: the iteration order of the set of unplaced entities is a parameter (any order); the final sort by length and '
